@@ -147,6 +147,17 @@ class VCases:
         return impl == model
 
 
+# payloads whose first part parses and which fail later (a non-atomic leaf write would leave
+# the leaf half-updated)
+LATE_FAIL = {
+    "arr3i16": ["[10,20,true]", "[10,20]", "[10,20,30,40]", "[10,20,99999]", "[10,20,30"],
+    "sstruct": ['{"a":5,"b":7}', '{"a":5}', '{"a":5,"b":tru', '{"a":5,"b":false', '{"a":300,"b":true}'],
+    "opti32": ["12x", "-", "2147483648"],
+    "string": ['"abc', '"abc\\'], "hstr8": ['"123456789"', '"abc'],
+    "uenum": ['"Purple"', '"Gree'],
+}
+
+
 def new_value(ty, rng):
     s = VAL.SAMPLES[ty if ty in VAL.SAMPLES else "u8"]
     return s[rng.randrange(len(s))]
@@ -214,6 +225,15 @@ def cases_c01(types, rng, tier):
             inst = st["inst"]
             ps = paths(inst, limit=30 if tier == "quick" else 120)
             leaves = [p for p in ps if p[2] == "leaf"]
+            # every compound leaf: each late-failing payload, then read back (must be unchanged)
+            for keys, idx, kind, n in leaves:
+                for pay in LATE_FAIL.get(n["ty"], []):
+                    e = O.Expect(inst, {})
+                    spec = keyspec_list(keys)
+                    ops = [f"jset|{spec}|{enc(pay)}", f"jget|{spec}|{BIG}", "snap"]
+                    exp = [e.run("jset", keys, pay), e.run("jget", keys, BIG), "snap=" + O.snap_text(e.inst)]
+                    if not e.float_hit:
+                        c.add(t, st["sid"], {}, ops, exp, f"late-failing payload {pay!r} on {t['label']} {keys}", "latefail")
             for rounds in range(2 if tier == "quick" else 8):
                 # a history of reads and writes on one instance
                 e = O.Expect(inst, {})
@@ -235,7 +255,7 @@ def cases_c01(types, rng, tier):
                         elif cls == "trailing":
                             pay = pay + " x"
                         elif cls == "wrongtype":
-                            pay = rng.choice(['"str"', "true", "[1]", "-1", "256", "null", "{}", "1e400"])
+                            pay = rng.choice(['"str"', "true", "[1]", "-1", "256", "null", "{}", "1e400"] + LATE_FAIL.get(n["ty"], []))
                         elif cls == "empty":
                             pay = ""
                         opn = rng.choice(["jset", "jset", "de"])
